@@ -1,5 +1,6 @@
 pub mod c05;
 pub mod c08;
 pub mod c10;
+pub mod c11;
 pub mod c13;
 pub mod c18;
